@@ -378,6 +378,10 @@ func (u *ut0311) Listen(signal chan any, done chan any, callback func([]byte)) e
 			callback(m[:N])
 		}
 
+		// NTS: a receive error between 'closed' being set and the socket being closed ends the loop
+		//      before the shutdown goroutine has released the listen address
+		c.Close()
+
 		close(done)
 	}()
 
